@@ -1,6 +1,8 @@
 """Extract the shipped recognisers (regular expressions) and the kind orders from the working tree."""
 from __future__ import annotations
 
+import re
+
 import json
 
 import rx2nfa
@@ -9,6 +11,9 @@ from common import load_impl
 FIELDS = ["resolution", "offset", "player2", "difficulty", "preview_start", "preview_end", "genre", "media_type", "name",
           "artist", "charter", "album", "year", "music_stream", "guitar_stream", "rhythm_stream", "bass_stream", "drum_stream",
           "drum2_stream", "drum3_stream", "drum4_stream", "vocal_stream", "keys_stream", "crowd_stream"]
+
+
+FLAGS = {}     # name -> the flags the implementation compiled the recogniser with
 
 
 def recognisers():
@@ -37,15 +42,18 @@ def recognisers():
                       ("B", sy.BPMEvent.ParsedData), ("TS", sy.TimeSignatureEvent.ParsedData), ("A", sy.AnchorEvent.ParsedData),
                       ("lyric", ge.LyricEvent.ParsedData), ("section", ge.SectionEvent.ParsedData), ("text", ge.TextEvent.ParsedData)):
         out[name] = (getattr(cls, "_regex", None), via(cls))
+        FLAGS[name] = int(getattr(getattr(cls, "_regex_prog", None), "flags", 0) or 0)
     specs = getattr(md, "_field_parsing_specs", {})
     for f in FIELDS:
         sp = specs.get(f)
         if sp is not None:
             out["f_" + f] = (sp.regex, (lambda line, sp=sp: sp.regex_prog.match(line) is not None))
+            FLAGS["f_" + f] = int(getattr(getattr(sp, "regex_prog", None), "flags", 0) or 0)
     hdr = getattr(ch.Chart, "_header_tag_regex", None)
     prog = getattr(ch.Chart, "_header_tag_regex_prog", None)
     if hdr is not None and prog is not None:
         out["header"] = (hdr, lambda line: prog.match(line) is not None)
+        FLAGS["header"] = int(getattr(prog, "flags", 0) or 0)
     return out
 
 
@@ -95,7 +103,9 @@ def write(gen):
             unsupported[name] = "pattern not found"
             continue
         try:
-            nfas[name] = rx2nfa.compile_pattern(pat, pool)
+            nfas[name] = rx2nfa.compile_pattern(pat, pool, FLAGS.get(name, 0))
+            if FLAGS.get(name, 0) & re.IGNORECASE:
+                probes[name] = "compiled with re.IGNORECASE: modelled"
         except (rx2nfa.Unsupported, Exception) as e:  # noqa: BLE001
             unsupported[name] = repr(e)
             continue
